@@ -17,6 +17,7 @@ import (
 // enclosing type switch has a *types.Named case; the target is *types.Tuple;
 // the operand is the type of a function object) or be listed with a reason.
 func underlyingRule(c *core.Ctx, r *core.Report, rule string, scope func(t core.TypeTest) bool, exceptions map[string]string, consequence string) {
+	r.Explain(rule + ": every test of a go/types.Type against a structural type in scope is guarded (operand is an Underlying()/CoreType() result, the switch has a *types.Named arm, the target is a tuple, the operand is the type of a function object or of an address-valued instruction) or listed with a reason.")
 	n, guarded := 0, 0
 	seen := map[string]int{}
 	for _, t := range core.StructuralTypeTests(c) {
